@@ -76,6 +76,11 @@ macro_rules! function {
                 args: &[Value],
             ) -> Result<Type, Error>
             {
+                // the argument list is consumed positionally below: a call with too few arguments is a type error
+                let required = [$(stringify!($aname)),+].len();
+                if args.len() < required {
+                    bail!("function {} requires {} argument(s), {} given", stringify!($name), required, args.len())
+                }
                 let mut targs : Vec<Type> = Vec::with_capacity(args.len());
                 for x in args {
                     let t = x.real_type_of($ctx.clone())?;
